@@ -226,3 +226,34 @@ def check_raw_copies(prop: str, res: Result, repo: Repo, want=("method", "append
                 res.fail(rule, finding(prop, rule, vi, first if first is not None else c, "a new timeframe manager must be built from [candle.raw_copy() for candle in <base candles>] evaluated for that manager: shared or already converted candles corrupt its buckets"))
         else:
             res.fail(rule, finding(prop, rule, vi, vi.node, "the binding loop must create a missing timeframe manager with one CandleManager(...) call", construct="_validate_indicators: CandleManager(...)"))
+
+
+def check_purge_paths(prop: str, res: Result, repo: Repo):
+    """R-PURGE: Indicator.purge hands its name set to the manager on every path (no early return that leaves entries behind) and the
+    name collection keeps nothing between calls"""
+    from .effects import Effects
+    from .structure import normal_exit, path_calls, stmt_paths
+
+    rule = "R-PURGE"
+    pg = repo.method("hexital.core.indicator", "Indicator", "purge")
+    n = 0
+    for p in stmt_paths(pg.node.body):
+        if not normal_exit(p):
+            continue
+        n += 1
+        if any(call_target(c).endswith("_candles.purge") or call_target(c).endswith("candle_manager.purge") for c in path_calls(p)):
+            res.ok(rule, {"site": pg.where, "path": n, "why": "reaches the manager's purge"})
+        else:
+            res.fail(rule, finding(prop, rule, pg, pg.node, "a path through Indicator.purge returns without purging (e.g. a 'nothing calculated yet' shortcut): entries of the indicator or its helpers stay on the candles", construct=f"Indicator.purge: path {n} without manager purge"))
+    depth, why, fn = purge_depth(repo)
+    eff = Effects(repo)
+    if fn is not None and fn.name != "purge":
+        e = eff.effect(fn)
+        if e:
+            for root, node, w in eff.effect_sites(fn)[:2]:
+                res.fail(rule, finding(prop, rule, fn, node, f"the purge name set is kept between calls ({w}; e.g. a mutable default argument or a cache on the object): a later purge of another indicator also removes these names"))
+        else:
+            res.ok(rule, {"site": fn.where, "why": "name collection is stateless"})
+        for a in fn.node.args.defaults + [d for d in fn.node.args.kw_defaults if d is not None]:
+            if isinstance(a, (ast.List, ast.Dict, ast.Set)) or (isinstance(a, ast.Call) and call_name(a) in ("set", "list", "dict")):
+                res.fail(rule, finding(prop, rule, fn, a, "mutable default argument in the purge name collection: the set is shared by every call in the process"))
